@@ -61,3 +61,27 @@ parse_out_param = Contract(
 )
 
 CONTRACTS = [parse_out_param]
+
+
+# ------------------------------------------------------------------------------------------- _make_call_meth (C16: the __call__ path)
+_ST1 = ("node", "ast.Pass", {})
+_ST2 = ("node", "ast.Expr", {"value": ("node", "ast.Constant", {"value": 1, "kind": None})})
+_STR_ = ("node", "ast.Return", {"value": ("node", "ast.Constant", {"value": 0, "kind": None})})
+
+make_call_meth = Contract(
+    "doctrans.emitter_utils:_make_call_meth",
+    properties=["C16"],
+    note="list bodies of 0..3 statements (the dict form - a bare return entry - is outside this contract); fix_missing_locations is the identity on structure",
+    cases=[Case("body=%d" % n, {"body": ("list", [_ST1, _ST2, _STR_][:n]), "return_type": None, "param_names": ("tuple", ["str"]),
+                                "docstring_format": ("lit", "rest"), "word_wrap": True}) for n in range(4)],
+    ensures=[
+        Clause("MC-none", "result is None", when=["body=0"], note="no body, no __call__"),
+        Clause("MC-call", "typeis(result, 'FunctionDef') and result.name == '__call__' and [a.arg for a in result.args.args] == ['self'] "
+                          "and result.args.kwonlyargs == [] and result.args.vararg is None and result.args.kwarg is None",
+               when=["body=1", "body=2", "body=3"], note="a method __call__(self)"),
+        Clause("MC-body", "result.body is body and unchanged(body, old_body)", when=["body=1", "body=2", "body=3"],
+               note="C16: the carried statements are the method's body - same statements, same order, none added or dropped"),
+    ],
+    canaries=["result is None"],
+)
+CONTRACTS.append(make_call_meth)
